@@ -522,6 +522,31 @@ func (x *Exec) applyHints(st *State, cls []*Clause, ev *Env, fi *FuncInfo) {
 
 // applyUse assumes an instance of a lemma:  use lemma(args)
 func (x *Exec) applyUse(st *State, c *Clause, ev *Env, fi *FuncInfo) {
+	if q, ok := c.E.(*EQuant); ok && q.Forall {
+		// use forall v T :: LEMMA(args)  - a lemma schema the engine instantiates (e.g. at skolems)
+		call, ok := q.Body.(*ECall)
+		if !ok {
+			vfail("%s: use forall v T :: LEMMA(args)", c.Line)
+		}
+		nev := ev
+		var vars []*Term
+		for _, p := range q.Vars {
+			ty := tyFromName(p.Type)
+			if ty == nil || ty.K != TInt {
+				vfail("%s: quantified use needs integer variables", c.Line)
+			}
+			bv := BoundVar(p.Name, BV(ty.W), tyKey(ty))
+			vars = append(vars, bv)
+			nev = nev.with(p.Name, SInt{bv, ty})
+		}
+		t, err := x.W.lemmaInstance(nev, call)
+		if err != nil {
+			vfail("%s: %v", c.Line, err)
+		}
+		x.W.noteLemmaUse(x.top.Key, call.Fn)
+		st.assume(Forall(vars, t))
+		return
+	}
 	call, ok := c.E.(*ECall)
 	if !ok {
 		vfail("%s: use LEMMA(args)", c.Line)
@@ -640,7 +665,13 @@ type heapEff struct {
 	field   bool
 }
 
+type objRef struct {
+	named *types.Named
+	ref   *Term
+}
+
 type effects struct {
+	objs    []objRef // objects whose fields are (partly) havocked: their slice headers stay well-formed
 	cells   map[*ssa.Alloc]bool
 	heaps   map[string]*heapEff
 	globals map[*ssa.Global]bool
@@ -689,6 +720,7 @@ func (x *Exec) havocLoop(st *State, fr *frame, lp *Loop) {
 		st.alloc = na
 	}
 	x.havocHeaps(st, pre, eff)
+	x.wfObjects(st, eff)
 	for g := range eff.globals {
 		ty := tyFromGo(g.Type().(*types.Pointer).Elem())
 		v, _ := x.freshValue(ty, globalName(g), st)
@@ -747,6 +779,25 @@ func (x *Exec) havocHeaps(st, pre *State, eff *effects) {
 	}
 }
 
+// wfObjects: slice headers / references stored in the fields of havocked objects are well-formed.
+func (x *Exec) wfObjects(st *State, eff *effects) {
+	seen := map[string]bool{}
+	for _, o := range eff.objs {
+		k := fmt.Sprintf("%p|%d", o.named, o.ref.id)
+		if seen[k] {
+			continue
+		}
+		seen[k] = true
+		s := o.named.Underlying().(*types.Struct)
+		for f := 0; f < s.NumFields(); f++ {
+			ft := tyFromGo(s.Field(f).Type())
+			if ft.K == TSlice || ft.K == TPtr {
+				x.wfLoaded(st, loadField(st, o.named, f, o.ref))
+			}
+		}
+	}
+}
+
 // ensureHeap makes sure a heap key exists in the state (so that havoc can frame it).
 func ensureHeap(st *State, key string, srt *Sort, field bool) {
 	if _, ok := st.heaps[key]; ok {
@@ -781,6 +832,9 @@ func (x *Exec) addHeapEff(st *State, eff *effects, e *STy, regs []*Term, unknown
 }
 
 func (x *Exec) addFieldEff(st *State, eff *effects, n *types.Named, f int, refs []*Term, unknown bool) {
+	for _, r := range refs {
+		eff.objs = append(eff.objs, objRef{n, r})
+	}
 	s := n.Underlying().(*types.Struct)
 	ft := tyFromGo(s.Field(f).Type())
 	for _, k := range fieldKeys(n, f) {
